@@ -32,7 +32,14 @@ type KeyValues []*protoMetricsV1.KeyValue
 
 func (kvs KeyValues) Len() int { return len(kvs) }
 
-func (kvs KeyValues) Less(i, j int) bool { return kvs[i].Key < kvs[j].Key }
+// Less orders by key, then by value: entries with the same key have a defined order, so which
+// of them survives DeDup does not depend on the order they were appended in (nor on the sort algorithm).
+func (kvs KeyValues) Less(i, j int) bool {
+	if kvs[i].Key != kvs[j].Key {
+		return kvs[i].Key < kvs[j].Key
+	}
+	return kvs[i].Value < kvs[j].Value
+}
 
 func (kvs KeyValues) Swap(i, j int) { kvs[i], kvs[j] = kvs[j], kvs[i] }
 
